@@ -2,7 +2,7 @@
 independent of scrapli's patterns except for the length bounds, which are the patterns' own limits so
 that an edit of a bound lands on the boundary).  Case-sensitive regexes without anchors, matched as
 whole strings.  `line` = the prompt as get_prompt returns it (stripped); `len` = further regexes the
-whole prompt must also match (total-length bounds); `trail` = what the device prints after it.  `carve` = case-insensitive regexes; prompts matching one of them are EXCLUDED from the
+whole prompt must also match (total-length bounds); `trail` = what the device prints after it.  `carve` = CASE-SENSITIVE regexes (scrapli compares not_contains entries case-sensitively); prompts matching one of them are EXCLUDED from the
 grammar — each carve-out is either a vendor convention (another mode prints exactly that text) or the
 region of a listed known finding (then `finding` names it)."""
 
@@ -66,20 +66,17 @@ def _platforms():
             "modes": {
                 "exec": {"line": hosta(63) + r"(\(maint-mode\))?>", "class": ["exec"]},
                 "privilege_exec": {"line": hosta(63) + r"(\(maint-mode\))?#", "class": ["privilege_exec"],
-                                   "carve": [(r"-tcl", "host name containing -tcl (any case) reads as the tclsh prompt", "C05-nxos-tcl-host")]},
+                                   "carve": [(r"-tcl", "host name containing (lower-case) -tcl: excluded from privilege_exec by not_contains, matches no level", "C05-nxos-tcl-host"),
+                                             (r"-[Tt][Cc][Ll]#", "host name ENDING in -tcl in any case: the case-insensitive tclsh pattern matches it too", "C05-nxos-tcl-host")]},
                 "configuration": {"line": hosta(63) + r"(\(maint-mode\))?\(config(-" + SUB + r"{0,30})?\)#", "class": ["configuration"],
                                   "carve": [(r"\(.*config-tcl", "vendor: a decoration containing config-tcl is the tclsh-in-configuration prompt", None),
                                             (r"\(.*config-s\)", "vendor: a decoration ending in config-s) is the configuration-session prompt", None),
                                             (r"\(.*config-s-", "vendor: a decoration containing config-s- is a configuration-session sub-mode", None),
-                                            (r"-tcl.*\(", "host name containing -tcl", "C05-nxos-tcl-host"),
-                                            (r"config-s-.*\(config", "host name containing config-s-", "C05-nxos-config-s-host")]},
+                                            (r"config-(s-|tcl).*\(config", "host name containing (lower-case) config-s- or config-tcl", "C05-nxos-config-s-host")]},
                 "tclsh": {"line": "(" + hosta(59) + r"-tcl#|" + hosta(50) + r"\(config-tcl\)#|>|" + hosta(40) + r"\(maint-mode-tcl\)#|"
-                                  + hosta(40) + r"\(maint-mode\)\(config-tcl\)#)", "class": ["tclsh"],
-                          "carve": [(r"-tcl.*-tcl", "host name containing -tcl", "C05-nxos-tcl-host"),
-                                    (r"-tcl.*\(", "host name containing -tcl", "C05-nxos-tcl-host")]},
+                                  + hosta(40) + r"\(maint-mode\)\(config-tcl\)#)", "class": ["tclsh"]},
             },
-            "session": {"line": hosta(63) + r"(\(maint-mode\))?\(config-s(-" + SUB + r"{0,29})?\)#",
-                        "carve": [(r"-tcl", "host name containing -tcl", "C05-nxos-tcl-host")]},
+            "session": {"line": hosta(63) + r"(\(maint-mode\))?\(config-s(-" + SUB + r"{0,29})?\)#"},
         },
         "arista_eos": {
             "trail": "",
@@ -87,7 +84,7 @@ def _platforms():
                 "exec": {"line": hosta(63) + ">", "class": ["exec"]},
                 "privilege_exec": {"line": hosta(63) + "#", "class": ["privilege_exec"]},
                 "configuration": {"line": hosta(63) + r"\(config(-[A-Za-z0-9][A-Za-z0-9\-]{0,61})?\)#", "class": ["configuration"],
-                                  "carve": [(r"\(config-s-", "vendor: (config-s-<name>) is the configuration-session prompt", None)]},
+                                  "carve": [(r"\(config-[sS]-", "vendor: (config-s-<name>) is the configuration-session prompt; no EOS sub-mode is called s-… or S-…", None)]},
             },
             # session NAME: the prompt shows its first 6 characters
             "session": {"line_fmt": hosta(63) + r"\(config-s-%s(-[A-Za-z0-9][A-Za-z0-9\-]{0,62})?\)#"},
